@@ -35,6 +35,29 @@ def region(text, m):
     return "\n".join(out)
 
 
+def _walk_f(text, m, errs):
+    """Nested FString / FComponent reached from a parent f-string: only the structural clauses (the region of a field such
+    as {x !r} is not itself form syntax)."""
+    import hy
+
+    prev = None
+    for ch in m:
+        if not all(getattr(ch, a, None) is not None for a in ("start_line", "start_column", "end_line", "end_column")):
+            errs.append("f-string piece %r has no position" % (ch,))
+            continue
+        cs, ce = (ch.start_line, ch.start_column), (ch.end_line, ch.end_column)
+        ps, pe = (m.start_line, m.start_column), (m.end_line, m.end_column)
+        if not (ps <= cs and ce <= pe):
+            errs.append("f-string piece %r region %r-%r outside parent region %r-%r" % (ch, cs, ce, ps, pe))
+        if prev is not None and cs <= prev:
+            errs.append("pieces of an f-string field not in source order (%r starts at %r, the one before at %r)" % (ch, cs, prev))
+        prev = cs
+        if isinstance(ch, (hy.models.FString, hy.models.FComponent)):
+            _walk_f(text, ch, errs)
+        elif not isinstance(ch, hy.models.String) or (isinstance(m, hy.models.FComponent) and ch is m[0]):
+            walk(text, ch, m, None, errs)
+
+
 def walk(text, m, parent, acc, errs):
     import hy
 
@@ -53,6 +76,26 @@ def walk(text, m, parent, acc, errs):
     r = readerlib.read_all(reg)
     if r[0] != "ok" or len(r[1]) != 1 or not readerlib.meq(r[1][0], m):
         errs.append("region %r of %r re-reads as %r" % (reg, m, r))
+    if isinstance(m, (hy.models.FString, hy.models.FComponent)):
+        # pieces of an f-string: literal text has no form syntax of its own (no re-reading), but every child still has to lie
+        # within its parent and the children have to start in source order; field expressions are ordinary forms
+        prev = None
+        for ch in m:
+            if not all(getattr(ch, a, None) is not None for a in ("start_line", "start_column", "end_line", "end_column")):
+                errs.append("f-string piece %r has no position" % (ch,))
+                continue
+            cs, ce = (ch.start_line, ch.start_column), (ch.end_line, ch.end_column)
+            ps, pe = (m.start_line, m.start_column), (m.end_line, m.end_column)
+            if not (ps <= cs and ce <= pe):
+                errs.append("f-string piece %r region %r-%r outside parent region %r-%r" % (ch, cs, ce, ps, pe))
+            if prev is not None and cs <= prev:
+                errs.append("pieces of %r not in source order (%r starts at %r, the one before at %r)" % (reg, ch, cs, prev))
+            prev = cs
+            if isinstance(ch, (hy.models.FString, hy.models.FComponent)):
+                _walk_f(text, ch, errs)
+            elif not isinstance(ch, hy.models.String) or (isinstance(m, hy.models.FComponent) and ch is m[0]):
+                walk(text, ch, m, acc, errs)
+        return
     if isinstance(m, hy.models.Sequence) and not isinstance(m, (hy.models.FString, hy.models.FComponent)):
         prev = None
         sugar = isinstance(m, hy.models.Expression) and not reg.startswith("(")
@@ -135,7 +178,7 @@ def spec(tier, seed):
                               "hy.models.Object position attributes"],
         "bounds": "%d multi-form programs (all form kinds incl. sugar (repeated), strings and bracket strings containing newlines / CR / CRLF, f-strings, nested and empty sequences); every gap between tokens chosen from "
                   "%r with period 4 (%d^4 layouts per program%s)" % (len(PROGRAMS), GAPS, ng, "" if tier == "thorough" else ", last selector restricted to 3 choices in quick"),
-        "outside": "other programs and gaps; tab width; positions inside f-string components (sub-string offsets); lone CR as a line end",
+        "outside": "other programs and gaps; tab width; exact offsets of the literal text pieces of f-strings (only containment and source order are checked for them); lone CR as a line end",
         "stubs": ["reader call executed under crosshair.tracers.NoTracing"],
         "assumptions": ["region extraction is done by an independent line/column slicer on the source text (1-based, inclusive)"],
     }
